@@ -129,7 +129,11 @@ def gen_aa(rng, cg, vel=False, extra_residue=False, smaller=False):
         residues.append({"resname": "XTR", "atoms": [f"C{a + 1}", f"O{a + 2}"]})
         bonds.append([a - 1, a])
         bonds.append([a, a + 1])
-    return {"residues": residues, "bonds": bonds, "xyz": [_r3(p) for p in xyz], "vel": bool(vel)}
+    # the end-resolution coordinate file numbers its residues from `resid0`: usually 1 like the topology's
+    # resnr, often NOT (a molecule cut out of a larger system).  The numbers written by an extrapolation are the
+    # INPUT molecule's, whatever the template file and the shared topology happen to hold (seed C05-3)
+    resid0 = rng.choice([1, 1, 1, 2, 12, 300, 4071])
+    return {"residues": residues, "bonds": bonds, "xyz": [_r3(p) for p in xyz], "vel": bool(vel), "resid0": resid0}
 
 
 def gen_species(rng, idx, kind, mapped=True, loaded=True, aa_vel=False, extra_residue=False):
@@ -323,7 +327,7 @@ def materialize(desc, directory, names=None):
             p["aagro"] = nm(i, "aagro", f"sp{i}_end.gro")
             p["aaitp"] = nm(i, "aaitp", f"sp{i}_end.itp")
             write_itp(p["aaitp"], sp.get("aa_name", sp["name"]), sp["aa"], comment="end resolution")
-            write_gro(p["aagro"], f"end molecule {sp['name']}", mol_atoms(sp["aa"]),
+            write_gro(p["aagro"], f"end molecule {sp['name']}", mol_atoms(sp["aa"], resid0=sp["aa"].get("resid0", 1)),
                       [3.0, 3.0, 3.0], vel=sp["aa"].get("vel", False))
         paths["species"].append(p)
     return paths
